@@ -5,7 +5,7 @@ from ..nf import Rat, C
 from ..source import Unsupported, AnchorError
 from ..xlate import Interp, Obj, ListV, DictV, Raised
 from .common import same, show, sub, opaque_obj
-from .rxnfix import reaction, state_sum, species
+from .rxnfix import reaction, state_sum, species, set_public
 from .c08 import expected_delta, expected_state
 
 CHEM = 'pmutt.reaction.ChemkinReaction'
@@ -62,8 +62,8 @@ def bep_rules(run, repo):
         T, P = D.sym('T'), D.sym('P')
         rxn, rs, ps, ts = reaction(I, repo, 'pmutt.reaction.Reaction', nts=0)
         bep = Obj('bep', bci, attrs={'descriptor': desc, 'name': 'bep'})
-        rxn.attrs['_transition_state'] = ListV([bep])
-        rxn.attrs['_transition_state_stoich'] = ListV([C(1)])
+        set_public(I, rxn, 'transition_state', ListV([bep]))
+        set_public(I, rxn, 'transition_state_stoich', ListV([C(1)]))
         kw = {'T': T, 'P': P}
         owner, fn = repo.find_method(bci, 'get_E_act')
         Ef = I.call_method(bep, 'get_E_act', [], dict(kw, units='kcal/mol', reaction=rxn, rev=False))
@@ -192,7 +192,7 @@ def preexp_surface(run, repo, classes):
                     kb, h = D.sym('kb'), D.sym('h')
                     rxn, rs, ps, ts = reaction(I, repo, qual, nr=3, nts=1 if has_ts else 0)
                     stoich = [C(1), C(2), C(1)]
-                    rxn.attrs['_reactants_stoich'] = ListV(stoich)
+                    set_public(I, rxn, 'reactants_stoich', ListV(stoich))
                     sd = []
                     # species 0..n_surf_species-1 are adsorbates on a site, the rest gas
                     for i, sp in enumerate(rs):
@@ -281,7 +281,7 @@ def preexp_surface(run, repo, classes):
         I = Interp(repo)
         D = I.D
         rxn, rs, ps, ts = reaction(I, repo, qual, nr=1)
-        rxn.attrs['_reactants_stoich'] = ListV([C(1)])
+        set_public(I, rxn, 'reactants_stoich', ListV([C(1)]))
         if cname == 'ChemkinReaction':
             rs[0].attrs.update({'phase': 'S', 'cat_site': Obj('site', attrs={'site_density': D.sym('sden'),
                                                                               'bulk_specie': 'bulk'})})
